@@ -74,7 +74,8 @@ midpoint rooting), sortings and copies keeps the tip set, the split multiset and
 path lengths — by induction over the history, for every tree whose root has ≥ 2 children.
 (`copy`/`deepcopy` are the identity in the value model: that they, and every other operation,
 leave the *Python object* they are called on unmodified is checked on the implementation by
-deep snapshots — harness `spec_check`; `root_at_midpoint` fails that check.) -/
+deep snapshots — harness `spec_check`; `root_at_midpoint` used to fail that check and now works on a
+`deepcopy` of `self`: finding C09-midpoint-mutates-argument, status fixed, regression-guarded.) -/
 theorem history_preserves_tips_splits (ops : List TOp) (t r : PTree K) (h : applyOps t ops = some r)
     (hdeg : 2 ≤ t.children.length) (hnd : (tips t).Nodup) :
     (tips r).Perm (tips t) ∧ SplitsEquiv (tips t) (splits t) (splits r) :=
@@ -190,5 +191,105 @@ example : unrootedRF (K := Int)
     (.node "" none [.node "a" none [], .node "b" none [], .node "" none [.node "c" none [], .node "d" none []]])
     (.node "" none [.node "c" none [], .node "d" none [], .node "" none [.node "b" none [], .node "a" none []]])
     = .ok 0 := by decide +kernel
+
+/-! ## Added by the audit
+
+* the re-rooting theorems restated for the **public entry points** `rooted_at(name)` / `rooted_with_tip(name)`
+  (the functions the driver runs against the implementation), not only for the internal path walk;
+* rooted Robinson–Foulds is zero exactly when the two trees have the same clades ("zero exactly for equal
+  topologies" for the rooted method; only symmetry was proved before). -/
+
+theorem rooted_at_preserves [AddCommMonoid K] (d : K) (t r : PTree K) (nm : String)
+    (h : rootedAt t nm = .ok r) (hdeg : 2 ≤ t.children.length) (hnd : (tips t).Nodup) :
+    (tips r).Perm (tips t) ∧ SplitsEquiv (tips t) (splits t) (splits r) ∧
+      ∀ a b, a ∈ tips t → b ∈ tips t → distSpec d a b r = distSpec d a b t := by
+  unfold rootedAt at h
+  split at h
+  · cases h
+  · rename_i p _
+    split at h
+    · cases h
+    · rename_i r' hr
+      injection h with h; subst h
+      exact ⟨reroot_preserves_tips t _ p hr (Or.inr hdeg), reroot_preserves_splits t _ p hr (Or.inr hdeg) hnd,
+        fun a b ha hb => reroot_preserves_dist d t _ p hr (Or.inr hdeg) hnd a b ha hb⟩
+
+theorem rooted_with_tip_preserves [AddCommMonoid K] (d : K) (t r : PTree K) (nm : String)
+    (h : rootedWithTip t nm = .ok r) (hdeg : 2 ≤ t.children.length) (hnd : (tips t).Nodup) :
+    (tips r).Perm (tips t) ∧ SplitsEquiv (tips t) (splits t) (splits r) ∧
+      ∀ a b, a ∈ tips t → b ∈ tips t → distSpec d a b r = distSpec d a b t := by
+  unfold rootedWithTip at h
+  split at h
+  · cases h
+  · rename_i p _
+    split at h
+    · cases h
+    · split at h
+      · cases h
+      · rename_i r' hr
+        injection h with h; subst h
+        exact ⟨reroot_preserves_tips t _ _ hr (Or.inr hdeg), reroot_preserves_splits t _ _ hr (Or.inr hdeg) hnd,
+          fun a b ha hb => reroot_preserves_dist d t _ _ hr (Or.inr hdeg) hnd a b ha hb⟩
+
+example : (rootedWithTip (K := Int)
+    (.node "" none [.node "x" (some 3) [.node "a" (some 1) [], .node "y" (some 7) [.node "b" (some 2) [], .node "e" (some 1) []]],
+                    .node "c" (some 4) [], .node "d" (some 5) []]) "b").toOption.map tips = some ["b", "e", "a", "c", "d"] := by
+  decide +kernel
+
+/-! ### rooted Robinson–Foulds -/
+
+theorem memSet_dedup (x : List String) (S : List (List String)) : memSet x (dedupSets S) = memSet x S := by
+  unfold memSet
+  rw [dedupSets_eq]
+  exact any_dedupBy seteq seteq_trans x S
+
+theorem symDiffCount_dedup_zero_iff (S₁ S₂ : List (List String)) :
+    symDiffCount (dedupSets S₁) (dedupSets S₂) = 0 ↔
+      (∀ A ∈ S₁, ∃ B ∈ S₂, seteq A B = true) ∧ (∀ B ∈ S₂, ∃ A ∈ S₁, seteq B A = true) := by
+  have one : ∀ (S S' : List (List String)),
+      ((dedupSets S).filter fun A => !memSet A (dedupSets S')).length = 0 ↔ ∀ A ∈ S, ∃ B ∈ S', seteq A B = true := by
+    intro S S'
+    rw [List.length_eq_zero_iff, List.filter_eq_nil_iff]
+    constructor
+    · intro h A hA
+      have hrep : memSet A (dedupSets S) = true := by
+        rw [memSet_dedup]
+        exact List.any_eq_true.2 ⟨A, hA, (seteq_iff A A).2 (fun _ => Iff.rfl)⟩
+      obtain ⟨A', hA', hAA'⟩ := List.any_eq_true.1 hrep
+      have := h A' hA'
+      have this' : memSet A' S' = true := by rw [memSet_dedup] at this; simpa using this
+      obtain ⟨B, hB, hA'B⟩ := List.any_eq_true.1 this'
+      exact ⟨B, hB, seteq_trans A A' B hAA' hA'B⟩
+    · intro h A hA
+      have hA' : A ∈ S := by
+        rw [dedupSets_eq] at hA
+        exact dedupBy_sublist _ S A hA
+      obtain ⟨B, hB, hAB⟩ := h A hA'
+      have : memSet A (dedupSets S') = true := by
+        rw [memSet_dedup]; exact List.any_eq_true.2 ⟨B, hB, hAB⟩
+      simp [this]
+  unfold symDiffCount
+  rw [Nat.add_eq_zero_iff, one S₁ S₂, one S₂ S₁]
+
+theorem rooted_rf_zero_iff_same_clades (t₁ t₂ : PTree K) (n : Nat) (h : rootedRF t₁ t₂ = .ok n) :
+    n = 0 ↔ (∀ A ∈ clusters t₁, ∃ B ∈ clusters t₂, seteq A B = true) ∧
+            (∀ B ∈ clusters t₂, ∃ A ∈ clusters t₁, seteq B A = true) := by
+  unfold rootedRF at h
+  split at h
+  · cases h
+  · split at h
+    · cases h
+    · injection h with h
+      rw [← h]
+      exact symDiffCount_dedup_zero_iff _ _
+
+example : rootedRF (K := Int)
+    (.node "" none [.node "" none [.node "a" none [], .node "b" none []], .node "" none [.node "c" none [], .node "d" none []]])
+    (.node "" none [.node "" none [.node "d" none [], .node "c" none []], .node "" none [.node "b" none [], .node "a" none []]])
+    = .ok 0 := by decide +kernel
+example : rootedRF (K := Int)
+    (.node "" none [.node "" none [.node "a" none [], .node "b" none []], .node "" none [.node "c" none [], .node "d" none []]])
+    (.node "" none [.node "" none [.node "a" none [], .node "c" none []], .node "" none [.node "b" none [], .node "d" none []]])
+    = .ok 4 := by decide +kernel
 
 end CogentModel.C09
